@@ -183,3 +183,56 @@ theorem parse_callers (ins : List Ins) (t : Teal) (h : parseTeal ins = .ok t) :
                     exact ⟨hy, hr⟩
 
 end Tealer.ParseSubs
+
+namespace Tealer.ParseSubs
+open Tealer.Reach
+
+/-- every label targeted by a `callsub` has its subroutine in the result, and the subroutine's entry block is the block of
+    the instruction the label resolves to -/
+theorem parse_sub_of_label (ins : List Ins) (t : Teal) (h : parseTeal ins = .ok t) (l : String)
+    (hl : l ∈ callsubLabels ins) :
+    ∃ nexts s li, insNext ins = .ok nexts ∧ s ∈ t.subs ∧ s.name = l ∧ lookupLabel (labelTable ins) l = .ok li ∧
+      blockOfIns (createBB ins nexts).1 li = .ok s.entry := by
+  unfold parseTeal at h
+  simp only [bind, Except.bind, pure, Except.pure] at h
+  split at h
+  · cases h
+  · split at h
+    · cases h
+    · rename_i nexts hn
+      split at h
+      · cases h
+      · rename_i bs hbs
+        split at h
+        · cases h
+        · rename_i v hv
+          split at h
+          · cases h
+          · rename_i v1 hv1
+            split at h
+            · cases h
+            · split at h
+              · cases h
+              · simp only [Except.ok.injEq] at h
+                subst h
+                simp only []
+                have hmemT : (l, callPositions ins l) ∈ callsubTable ins := by
+                  unfold callsubTable callPositions
+                  exact List.mem_map.mpr ⟨l, hl, rfl⟩
+                obtain ⟨x, hx, hfx⟩ := StepEdge.mapM_except_mem _ _ _ hv _ hmemT
+                split at hfx
+                · cases hfx
+                · rename_i li hli
+                  split at hfx
+                  · cases hfx
+                  · rename_i eb heb
+                    simp only [Except.ok.injEq] at hfx
+                    subst hfx
+                    obtain ⟨s, hs, hfs⟩ := StepEdge.mapM_except_mem _ _ _ hv1 _ hx
+                    split at hfs
+                    · cases hfs
+                    · simp only [Except.ok.injEq] at hfs
+                      subst hfs
+                      exact ⟨nexts, _, li, hn, hs, rfl, hli, heb⟩
+
+end Tealer.ParseSubs
